@@ -722,6 +722,24 @@ class Engine:
 
     # -------------------------------------------------------------- loops
     def run_loop(self, s, st, ctl):
+        """loop cut at its invariant.  The set of heap locations havoc'd at the loop head starts from the syntactic frame of the body and is closed
+        under what the symbolic execution of the body actually writes (ghost state included): a location written by the body but not yet havoc'd
+        triggers a re-run with that location havoc'd too (at most a few rounds), so the cut is sound whatever the syntactic frame missed."""
+        extra = set()
+        for _round in range(6):
+            n_obls, n_unsup = len(self.obls), len(self.unsupported)
+            saved_ctl = (list(ctl.brk), list(ctl.cont), list(ctl.ret), list(ctl.exc))
+            out, missed = self._run_loop_once(s, st.copy(), ctl, extra)
+            if not missed:
+                return out
+            extra |= missed
+            del self.obls[n_obls:]
+            del self.unsupported[n_unsup:]
+            ctl.brk, ctl.cont, ctl.ret, ctl.exc = saved_ctl
+        self.unsup(s, 'loop frame did not stabilise')
+        return out
+
+    def _run_loop_once(self, s, st, ctl, extra_havoc):
         d = self.dom
         fr = self.frames[-1]
         ordinal = fr.loop_ord.get(id(s), '?')
@@ -763,7 +781,13 @@ class Engine:
         for n in sorted(names):
             h.env[n] = d.fresh_like(n, entry.env.get(n, UNK), h, None)
         self.havoc_frame(h, s.body)
+        for key in extra_havoc:
+            if key in h.heap:
+                h.heap[key] = d.fresh_like(key[1], h.heap[key], h, None)
+            else:
+                h.heap[key] = UNK
         d.loop_havoc(self, s, h, entry, fr)
+        head_heap = dict(h.heap)
         if it_name:
             i = fint(it_name)
             h.env[it_name] = i
@@ -810,12 +834,28 @@ class Engine:
         for ln, x in inner.brk:
             d.at_break(self, s, x, ln, fr)
         exits = [x for _, x in inner.brk] + ([exit_st] if exit_st is not None else [])
+        # locations written by the body that were not havoc'd at the head
+        missed = set()
+        for x in [b[1] for b in backs] + [x for _, x in inner.brk] + [x for _, x in inner.ret]:
+            for key, v in x.heap.items():
+                hv = head_heap.get(key)
+                if hv is None:
+                    if key not in entry.heap:
+                        continue            # object created inside the body
+                    missed.add(key)
+                elif is_unk(hv) or key in extra_havoc:
+                    continue                # already untracked / already havoc'd at the head
+                elif v is not hv and not (isz(v) and isz(hv) and z3.eq(v, hv)) and not (is_unk(v) and is_unk(hv)):
+                    hv0 = entry.heap.get(key)
+                    was_havocd = hv0 is None or (hv is not hv0 and not (isz(hv) and isz(hv0) and z3.eq(hv, hv0)))
+                    if not was_havocd and not (isinstance(v, Ref) and isinstance(hv, Ref) and v == hv):
+                        missed.add(key)
         out = merge_states(exits)
         if out is not None:
             out.env.pop('i_', None)
         if s.orelse:
             self.unsup(s, 'loop else')
-        return out
+        return out, missed
 
     def havoc_frame(self, st, stmts):
         """havoc every heap field that the statements may write (syntactic, transitive, name-based)"""
